@@ -70,7 +70,26 @@ fn gen_case(mode: &str, seed: u64, idx: u64, tier: &str) -> Case {
                 p.kinds.push(("element", 3));
                 p.kinds.push(("cumulative", 2));
             }
-            gen::gen_model(&mut r, &p)
+            if idx % 4 == 1 {
+                // arithmetic constraints over sign-mixed domains with one linear side constraint
+                p.kinds = vec![("times", 3), ("div", 2), ("abs", 2), ("max", 2), ("min", 2), ("plus", 1), ("elementd", 2)];
+                p.ncons = (1, 2);
+                p.nint = (3, 4);
+                p.width = 6;
+                p.lo = (-4, -1);
+                p.sparse_p = 0.1;
+                p.reif_p = 0.15;
+                p.litdef_p = 0.0;
+                let mut m = gen::gen_model(&mut r, &p);
+                for k in ["lin_le", "lin_ne"] {
+                    if let Some(c) = gen::gen_con(&mut r, &m, k, true) {
+                        m.cons.push((c, model::Reif::Plain));
+                    }
+                }
+                m
+            } else {
+                gen::gen_model(&mut r, &p)
+            }
         }
         "c12" => {
             let mut p = Profile::mixed();
